@@ -40,7 +40,8 @@ def cmd_replay(args):
         r = d["run"]
         builds = C.build_many(engine_checks.binary_jobs([r]))
         path = builds["eng_%s_%s" % (r["list"], r["alloc"])][0]
-        argv = engine_checks.engine_argv(path, r, d["property"], "/dev/null", 1, 60) + ["--replay", d["history"]]
+        argv = engine_checks.engine_argv(path, r, d["property"], "/dev/null", 1, 60) + ["--replay", d["history"]] + \
+            (["--fail-at", str(d["fail_at"])] if d.get("fail_at") else [])
         env = dict(os.environ)
         env["ASAN_OPTIONS"] = C.ASAN_ENV.replace("symbolize=0", "symbolize=1")
         rc = 0
